@@ -213,7 +213,12 @@ def gen_call(gs, w):
                 others = [t for t in typegen.SCALARS if _ct_differs(t, p["args"][j]["t"])]
                 if "np" not in vals[j]:
                     vals[j] = {"np": {"hex": "00" * 64, "start": 0, "step": 1, "n": 4, "two_d": False}}
-                return {"op": "c_call", "probe": pi, "vals": vals, "bad": bad, "which": j, "other": rng.choice(others)}
+                op = {"op": "c_call", "probe": pi, "vals": vals, "bad": bad, "which": j, "other": rng.choice(others)}
+                if rng.random() < 0.3 and np.dtype(typegen.SC_DTYPE[p["args"][j]["t"]]).itemsize > 1:
+                    # the declared element type in the other byte order: same name, same width, other element type
+                    op["other"] = p["args"][j]["t"]
+                    op["swapped"] = True
+                return op
         return {"op": "c_call", "probe": pi, "vals": vals, "bad": bad, "which_name": rng.randrange(8)}
     return None
 
@@ -302,6 +307,9 @@ def run_call(step):
                 base = np.frombuffer(bytearray.fromhex(nd["hex"]), dtype=dt)
                 if bad == "wrong_dtype" and op.get("which") == i:
                     odt = np.dtype(typegen.SC_DTYPE[op["other"]])
+                    if op.get("swapped"):
+                        odt = odt.newbyteorder()
+                        res.probe("c_call_refusal_byte_swapped_array")
                     base = np.zeros(len(base) + 4, dtype=odt)
                 arr = base[nd["start"] :: nd["step"]][: nd["n"]]
                 if nd.get("two_d") and len(arr) >= 2 and len(arr) % 2 == 0:
@@ -392,7 +400,7 @@ def run_call(step):
             res.probe("c_call_refused_" + bad)
             return
         step.outcome = "accepted"
-        step.viol("C17", "invalid_call_not_refused", [bad], f"{p['name']} called with {bad} arguments did not raise")
+        step.viol("C17", "invalid_call_not_refused", [bad] + (["byte_swapped"] if op.get("swapped") else []), f"{p['name']} called with {bad} arguments did not raise")
         return
     # ---- the real call (buffers may have been relocated since the objects were made)
     before = {id(b): seams.raw_bytes(b) for b in w.bufs}
